@@ -177,12 +177,21 @@ class malVisitor(ParseTreeVisitor):
 
     def visitTtcterm(self, ctx):
         if len(factors := ctx.ttcfact()) == 1:
-            ret = self.visit(factors[0])
-        else:
-            ret = {}
-            ret["type"] = "multiplication" if ctx.STAR() else "division"
-            ret["lhs"] = self.visit(factors[0])
-            ret["rhs"] = self.visit(factors[1])
+            return self.visit(factors[0])
+
+        ret = {}
+
+        lhs = self.visit(factors[0])
+        for i in range(1, len(factors)):
+            ret["type"] = (
+                "multiplication"
+                if ctx.children[2 * i - 1].getText() == "*"
+                else "division"
+            )
+            ret["lhs"] = lhs
+            ret["rhs"] = self.visit(factors[i])
+
+            lhs = ret.copy()
 
         return ret
 
